@@ -258,7 +258,7 @@ func runC19(r *Runner) string {
 		g, _ := strconv.Atoi(j.args[0])
 		r.Add(&Case{Op: "race.run", Args: j.args, Go: results[i].ans, Mode: GoOnly, Direct: results[i].direct, NonTrivial: g >= 2, Tag: fmt.Sprintf("g=%s", bucket(g)), Desc: "fresh -race process"})
 	}
-	return "each case is a fresh process of the -race build of harness/racecmd: g in 2..32 goroutines behind a barrier with randomised start delays, GOMAXPROCS in 1..16, each goroutine's first action drawn from 20 library actions (same action for all / one package group / RPC mixed in / arbitrary); failure = race report, result differing from the sequential fresh-process baseline, panic, duplicate or missing RPC request id. Non-trivial: >= 2 goroutines; distinct = distinct command line."
+	return "each case is a fresh process of the -race build of harness/racecmd: g in 2..32 goroutines behind a barrier with randomised start delays, GOMAXPROCS in 1..16, each goroutine's first action drawn from 20 library actions (same action for all / one package group / RPC mixed in / arbitrary); failure = race report, result differing from the sequential fresh-process baseline, panic, one RPC request id issued to two requests, or a missing id. Non-trivial: >= 2 goroutines; distinct = distinct command line."
 }
 
 func bucket(g int) string {
